@@ -421,7 +421,7 @@ def ref_apply(pool, env, op):
             # as the intended behaviour, in the NOTE of __getitem__)
             lab = [l[: -len(EACH)] + PER for l in a.labels]
             r = RObj("s", [v[key] for v in a.vals], lab)
-            return ("res", r, "int") if name == "getitem" else ("res", r)
+            return ("res", r, "int" if op.get("key_type", "int") == "int" else "numpy_int") if name == "getitem" else ("res", r)
         if name == "getitem" and isinstance(key, list) and len(key) == 2:
             sl = slice(key[0], key[1])
             vals = [v[sl] for v in a.vals]
@@ -692,7 +692,9 @@ def _propose(rng, pool, n, palette):
     out = _out_slot(rng, pool)
     if kind == "getitem":
         if rng.chance(0.5):
-            return {"op": "getitem", "a": i, "key": rng.randrange(-nn, nn), "out": out}
+            # the index may be a Python int or a numpy integer scalar (np.argmax, np.where(...)[0][k] ...)
+            return {"op": "getitem", "a": i, "key": rng.randrange(-nn, nn), "out": out,
+                    "key_type": rng.pick(["int", "int", "np.int64", "np.int32", "np.intp"])}
         s = rng.randrange(nn)
         return {"op": "getitem", "a": i, "key": [s, rng.pick([None, s + 1, nn, s + 1 + rng.randrange(nn)])], "out": out}
     if kind == "month":
@@ -943,7 +945,9 @@ class SeqRunner:
             return a.negative_values_to_zero()
         if name == "getitem":
             k = op["key"]
-            return a[k] if isinstance(k, int) else a[slice(k[0], k[1])]
+            if isinstance(k, int) and op.get("key_type", "int") != "int":
+                k = getattr(np, op["key_type"].split(".")[1])(k)
+            return a[k] if not isinstance(k, list) else a[slice(k[0], k[1])]
         if name == "get_month":
             return a.get_month(op["key"])
         if name == "get_first_month":
